@@ -56,9 +56,7 @@ type opResult struct {
 	outList  []rtcp.Packet
 	outDump  string // semantic dump of the produced packet(s) at return (unmasked)
 	outDumpM string // masked
-	label    int32
-	invoke   uint64
-	ret      uint64
+	siteHash uint64 // hash of the yield sites this operation passed
 }
 
 type prov struct {
@@ -86,17 +84,17 @@ type slotVal struct {
 }
 
 type world struct {
-	spec    *RunSpec
-	slots   []slotVal
-	msgs    [maxChans][maxMsgs]slotVal
-	word    [maxChans][maxMsgs]uint32
-	filled  [maxChans][maxMsgs]bool // reference world only
-	res     [][]opResult
-	iso     [][]opResult // reference world only
-	dirty   [][]uintptr  // per task: pointers of XR packets on which an XR-reaching Marshal was issued
-	conc    bool
-	fired   [maxTasks]faultCount
-	dead    bool
+	spec   *RunSpec
+	slots  []slotVal
+	msgs   [maxChans][maxMsgs]slotVal
+	word   [maxChans][maxMsgs]uint32
+	filled [maxChans][maxMsgs]bool // reference world only
+	res    [][]opResult
+	iso    [][]opResult // reference world only
+	dirty  [][]uintptr  // per task: pointers of XR packets on which an XR-reaching Marshal was issued
+	conc   bool
+	fired  [maxTasks]faultCount
+	dead   bool
 }
 
 type faultCount struct {
@@ -321,10 +319,10 @@ func (r *opResult) addU32(u []uint32) {
 	}
 	r.parts = append(r.parts, p)
 }
-func (r *opResult) addInt(n int64)     { r.parts = append(r.parts, part{kind: ptInt, n: n}) }
-func (r *opResult) addStr(s string)    { r.parts = append(r.parts, part{kind: ptStr, s: s}) }
-func (r *opResult) addErr(e error)     { r.parts = append(r.parts, part{kind: ptErr, err: e}) }
-func (r *opResult) addDump(s string)   { r.parts = append(r.parts, part{kind: ptDump, s: s}) }
+func (r *opResult) addInt(n int64)         { r.parts = append(r.parts, part{kind: ptInt, n: n}) }
+func (r *opResult) addStr(s string)        { r.parts = append(r.parts, part{kind: ptStr, s: s}) }
+func (r *opResult) addErr(e error)         { r.parts = append(r.parts, part{kind: ptErr, err: e}) }
+func (r *opResult) addDump(s string)       { r.parts = append(r.parts, part{kind: ptDump, s: s}) }
 func (r *opResult) addPanic(v interface{}) { r.parts = append(r.parts, part{kind: ptPanic, pan: v}) }
 
 func copyBytesPhys(b []byte) []byte {
@@ -377,6 +375,8 @@ func xrPointers(p rtcp.Packet, out []uintptr) []uintptr {
 // execOp executes one library/harness operation on `in`, returning the raw
 // result and the produced slot value (if the operation defines one).
 func (w *world) execOp(t int, op *Op, in *slotVal) (res opResult, out slotVal) {
+	opHashReset(t, w.conc)
+	defer func() { res.siteHash = opHashGet(t, w.conc) }()
 	res.done = true
 	k := op.K
 	switch k {
@@ -898,6 +898,8 @@ func runReference(s *RunSpec) *world {
 	w := newWorld(s, false)
 	n := len(s.Tasks)
 	pc := make([]int, n)
+	setCounting(true)
+	defer setCounting(false)
 	for {
 		progress := false
 		alldone := true
